@@ -207,6 +207,7 @@ def build():
         "Algorand": (AlgorandMnemonicGenerator().FromEntropy(ent32).ToStr(), AlgorandMnemonicDecoder(), AlgorandMnemonicValidator(), AlgorandMnemonic),
         "ElectrumV1": (ElectrumV1MnemonicGenerator().FromEntropy(ent16).ToStr(), ElectrumV1MnemonicDecoder(), ElectrumV1MnemonicValidator(), ElectrumV1Mnemonic),
         "Monero": (MoneroMnemonicGenerator().FromEntropyWithChecksum(ent32).ToStr(), MoneroMnemonicDecoder(), MoneroMnemonicValidator(), MoneroMnemonic),
+        "MoneroNoChk": (MoneroMnemonicGenerator().FromEntropyNoChecksum(ent16).ToStr(), MoneroMnemonicDecoder(), MoneroMnemonicValidator(), MoneroMnemonic),
     }
     import os as _os
     _r = _os.urandom
@@ -352,6 +353,117 @@ def payload_mutations(name, s, rng):
     return out
 
 
+# ---- Bech32 family: re-encode corrupted 5-bit data with a VALID checksum (own BIP-173/350/cashaddr code)
+B32 = "qpzry9x8gf2tvdw0s3jn54khce6mua7l"
+
+
+def _polymod(values):
+    gen = [0x3b6a57b2, 0x26508e6d, 0x1ea119fa, 0x3d4233dd, 0x2a1462b3]
+    chk = 1
+    for v in values:
+        b = chk >> 25
+        chk = (chk & 0x1ffffff) << 5 ^ v
+        for i in range(5):
+            chk ^= gen[i] if ((b >> i) & 1) else 0
+    return chk
+
+
+def _hrp_expand(hrp):
+    return [ord(x) >> 5 for x in hrp] + [0] + [ord(x) & 31 for x in hrp]
+
+
+def bech32_make(hrp, data5, const):
+    pm = _polymod(_hrp_expand(hrp) + data5 + [0] * 6) ^ const
+    return hrp + "1" + "".join(B32[d] for d in data5 + [(pm >> 5 * (5 - i)) & 31 for i in range(6)])
+
+
+def _bch_polymod(values):
+    gen = [(0x01, 0x98f2bc8e61), (0x02, 0x79b76d99e2), (0x04, 0xf33e5fb3c4), (0x08, 0xae2eabe2a8), (0x10, 0x1e4f43e470)]
+    chk = 1
+    for v in values:
+        top = chk >> 35
+        chk = ((chk & 0x07ffffffff) << 5) ^ v
+        for bit, g in gen:
+            if top & bit:
+                chk ^= g
+    return chk ^ 1
+
+
+def cashaddr_make(hrp, data5):
+    pm = _bch_polymod([ord(c) & 31 for c in hrp] + [0] + data5 + [0] * 8)
+    return hrp + ":" + "".join(B32[d] for d in data5 + [(pm >> 5 * (7 - i)) & 31 for i in range(8)])
+
+
+def bech32_family_mutations(s, rng):
+    out = []
+    low = s.lower()
+    try:
+        if ":" in low:
+            hrp, rest = low.rsplit(":", 1)
+            data = [B32.index(c) for c in rest][:-8]
+            mk = [lambda d: cashaddr_make(hrp, d)]
+        elif "1" in low:
+            hrp, rest = low[:low.rfind("1")], low[low.rfind("1") + 1:]
+            data = [B32.index(c) for c in rest][:-6]
+            mk = [lambda d: bech32_make(hrp, d, 1), lambda d: bech32_make(hrp, d, 0x2bc830a3)]
+        else:
+            return out
+    except ValueError:
+        return out
+    variants = [[], data[:1], data[:2], data + [0], data + [31], data + [0, 0], data[:-1], data[:-2], data[1:], [data[0]] if data else []]
+    for x in (1, 2, 4, 8, 16, 31):
+        if data:
+            variants.append(data[:-1] + [data[-1] ^ x])
+            variants.append([data[0] ^ x] + data[1:])
+    for _ in range(6):
+        if data:
+            i = rng.randrange(len(data))
+            variants.append(data[:i] + [rng.randrange(32)] + data[i + 1:])
+    for v in variants:
+        for m in mk:
+            out.append(m(v))
+    return out
+
+
+# ---- mnemonics: word-level mutations with words at the extremes of the lists
+def _edge_words():
+    import os
+    import bip_utils as _b
+    root = os.path.dirname(_b.__file__)
+    words = []
+    for rel in ("bip/bip39/wordlist/english.txt", "monero/mnemonic/wordlist/english.txt",
+                "electrum/mnemonic_v1/wordlist/english.txt"):
+        with open(os.path.join(root, rel), encoding="utf-8") as f:
+            ws = [w.strip() for w in f if w.strip() and not w.startswith("#")]
+        words += ws[:2] + ws[-2:] + [ws[len(ws) // 2]]
+    return words
+
+
+EDGE_WORDS = _edge_words()
+
+
+def mutate_words(s, rng):
+    ws = s.split()
+    out = []
+    if len(ws) < 3:
+        return out
+    for w in EDGE_WORDS:
+        i = rng.randrange(len(ws))
+        out.append(" ".join(ws[:i] + [w] + ws[i + 1:]))
+    for a in EDGE_WORDS:
+        for b in EDGE_WORDS:
+            t = list(ws)
+            t[0:3] = [a, a, b]
+            out.append(" ".join(t))
+            t = list(ws)
+            t[-3:] = [b, a, a]
+            out.append(" ".join(t))
+    out.append(" ".join(ws + ws[:1]))
+    out.append(" ".join(ws[:-1]))
+    out.append(" ".join(reversed(ws)))
+    return out
+
+
 # --------------------------------------------------------------------------- funcs
 
 def _direct(name):
@@ -404,6 +516,9 @@ def generate(ctx):
                 else:
                     inputs += mutate_str(s, rng, per)
                     inputs += payload_mutations(name, s, rng)
+                    inputs += bech32_family_mutations(s, rng)
+                    if "Mnemonic" in name or "SeedGenerator" in name:
+                        inputs += mutate_words(s, rng)
         else:
             inputs = list(JUNK_BYTES)
             for b in e["seeds"]:
